@@ -29,6 +29,7 @@ prop("C07", "exploration",
       "grants are stored with AddAuthGrant directly, as hoptests does; no authorized_keys files exist, so every admission is by grant"],
      [dict(name="model", pkg="hopserver", run="^TestVerifC07Grants$", shards=dict(quick=8, thorough=16), thorough_scale=50),
       dict(name="issue", pkg="hopserver", run="^TestVerifC07Issue$", shards=dict(quick=1, thorough=1)),
+      dict(name="e2e", pkg="hopserver", run="^TestVerifC07EndToEnd$", shards=dict(quick=16, thorough=16), thorough_scale=20, timeout=dict(quick=900, thorough=3600)),
       dict(name="concurrent", pkg="hopserver", run="^TestVerifC07ConcurrentAdmission$", shards=dict(quick=8, thorough=16), thorough_scale=20),
       dict(name="concurrent-race", pkg="hopserver", race=True, run="^TestVerifC07ConcurrentAdmission$", shards=dict(quick=4, thorough=8), thorough_scale=10)],
      exhaustive_core=True,
